@@ -358,6 +358,28 @@ def _falsy(rng, i: int) -> Case:
     return Case(line, tags, "random")
 
 
+def _reassign(rng, i: int) -> Case:
+    """the field is assigned several times: later values drop elements written earlier; repetitions in the assigned
+    collection and the owner itself as an element (the C15 residual F-C15-3 seen from C16: the contents must be the
+    last assigned value, every element that ever entered stays recorded)"""
+    d = _desc("L")
+    f = rng.randrange(6)
+    is_set = d["kinds"][f] == "set"
+    n_obj = rng.randint(4, 6)
+    a = rng.randrange(n_obj)
+    pool = list(range(n_obj))
+    ops = []
+    for _ in range(rng.randint(2, 4)):
+        if rng.random() < 0.5:
+            ops.append(("add" if is_set else "append", rng.choice(pool)))
+        xs = [rng.choice(pool + [a]) for _ in range(rng.randint(0, 4))]
+        ops.append(("assign", list(dict.fromkeys(xs)) if is_set else xs))
+        if rng.random() < 0.3:
+            ops.append(("assignSelf",))
+    tags = ("reassignment", "set-field" if is_set else "list-field")
+    return Case(_line(d, n_obj, f, a, [], ops), tags, "random")
+
+
 def _value_equal(rng, i: int) -> Case:
     """a population in which several DISTINCT objects compare equal (schema V): lists keep them all by identity,
     sets keep the first, and every one of them that is added gets its own relation"""
@@ -436,6 +458,8 @@ def generate(rng, tier, n):
         cases.append(_recycle(rng, i))
     for i in range(max(60, n // 4)):
         cases.append(_falsy(rng, i))
+    for i in range(max(40, n // 8)):
+        cases.append(_reassign(rng, i))
     return cases
 
 
